@@ -42,13 +42,10 @@ pub fn c02(o: &mut O, tier: &str, rng: &mut Rng, prop: u8) {
     for i in 0..n {
         // the product of the feature axes (both options, carrier, form body, token, a Date header next to
         // X-Amz-Date) is enumerated by the counter, everything else is drawn
-        let mut plan = covering_plan(rng, i);
+        let plan = covering_plan(rng, i);
         // keep '+' out of literal path spellings here; the D1 class is seeded explicitly above
         let sp = if i % 5 == 0 { Spelling::canonical() } else { Spelling::random(rng) };
         let off = window_offset(rng);
-        if plan.fold && plan.form {
-            plan.method = "POST".to_string();
-        }
         let mut b = build(&plan, &sp, rng, off);
         // how the request object reaches the library is not part of the signature: protocol version, body
         // container, absolute-form request target (all must come back unchanged when nothing is folded)
@@ -59,18 +56,19 @@ pub fn c02(o: &mut O, tier: &str, rng: &mut Rng, prop: u8) {
         }
         let mut cfg = b.cfg.clone();
         // requirement sets that the signed list satisfies
-        if rng.chance(1, 3) {
+        if rng.chance(1, 3) && b.signed.signed_headers.split(';').any(|h| h == "host") {
             cfg.always = vec![if rng.chance(1, 2) { "Host".to_string() } else { "host".to_string() }];
             cfg.prefixes = vec![];
             cfg.vec_reqs = rng.chance(1, 2);
         }
         let tags = format!(
-            "c02,{},{},{},{}{}",
+            "c02,{},{},{},{}{}{}",
             if plan.query_carrier { "query_carrier" } else { "header_carrier" },
             if plan.s3 && plan.fold { "s3+fold" } else if plan.s3 { "s3" } else if plan.fold { "fold" } else { "std" },
             if plan.token.is_some() { "token" } else { "notoken" },
             format!("style{}", sp.style),
-            if has_plus_in_path(&b.wire) { ",plus" } else { "" }
+            if has_plus_in_path(&b.wire) { ",plus" } else { "" },
+            if plan.twist.is_empty() { String::new() } else { format!(",twist:{}", plan.twist) }
         );
         emit(o, prop, &b.wire, &cfg, &b.prov, &accept, &tags);
     }
@@ -126,6 +124,12 @@ pub fn base_plan() -> Plan {
         raw_key_override: None,
         extra_date: None,
         sts_scope_override: None,
+        t_frac_ns: 0,
+        target: None,
+        empty_components: None,
+        auth_empty_elements: 0,
+        raw_bom: false,
+        twist: "",
     }
 }
 
@@ -192,9 +196,6 @@ pub fn c01(o: &mut O, tier: &str, rng: &mut Rng) {
     };
     for i in 0..n {
         let mut plan = covering_plan(rng, i);
-        if plan.fold && plan.form {
-            plan.method = "POST".to_string();
-        }
         if i % 3 == 0 {
             // make sure every component exists
             plan.segments = vec![b"res".to_vec(), b"item 1".to_vec()];
@@ -286,7 +287,12 @@ pub fn c01(o: &mut O, tier: &str, rng: &mut Rng) {
             let np = if path == "/" { "/x".to_string() } else { format!("{}x", path) };
             w.uri = format!("{}{}", np, rest);
             mutants.push(("path_append".to_string(), w, b.cfg.clone(), b.prov.clone()));
-            if let Some(pos) = path.bytes().position(|c| c.is_ascii_lowercase()) {
+            // (an absolute-form target: the path starts behind scheme and authority)
+            let path_start = match path.find("://") {
+                Some(k) => path[k + 3..].find('/').map(|j| k + 3 + j).unwrap_or(path.len()),
+                None => 0,
+            };
+            if let Some(pos) = path.bytes().enumerate().position(|(k, c)| k >= path_start && c.is_ascii_lowercase()) {
                 let mut w = b.wire.clone();
                 let mut pb = path.clone().into_bytes();
                 pb[pos] = if pb[pos] == b'z' { b'y' } else { pb[pos] + 1 };
@@ -419,7 +425,11 @@ pub fn c01(o: &mut O, tier: &str, rng: &mut Rng) {
                 Some((p, q)) => (p.to_string(), format!("?{}", q)),
                 None => (b.wire.uri.clone(), String::new()),
             };
-            if path != "/" {
+            let path_start = match path.find("://") {
+                Some(k) => path[k + 3..].find('/').map(|j| k + 3 + j).unwrap_or(path.len()),
+                None => 0,
+            };
+            if &path[path_start..] != "/" && path_start < path.len() {
                 let mut w = b.wire.clone();
                 let np = if path.ends_with('/') { path[..path.len() - 1].to_string() } else { format!("{}/", path) };
                 if !(plan.s3 && np.is_empty()) && !np.is_empty() {
@@ -446,9 +456,16 @@ pub fn c01(o: &mut O, tier: &str, rng: &mut Rng) {
         }
         // --- a signed header value byte; a signed header's multiplicity and value order
         {
+            let sent_list: Vec<&str> = b.signed.signed_headers.split(';').collect();
             for (hi, (n, _)) in b.wire.headers.iter().enumerate() {
                 let ln = String::from_utf8_lossy(n).to_ascii_lowercase();
-                if ln == "authorization" || !plan.signed.contains(&ln) && ln != "x-amz-date" && ln != "x-amz-security-token" {
+                // (covered = named in the list that was sent; on the query carrier a security-token or date header is
+                // an ordinary header, covered only if the client listed it)
+                if ln == "authorization" || !sent_list.contains(&ln.as_str()) {
+                    continue;
+                }
+                // (a request with hundreds of headers: the first few and the last few)
+                if b.wire.headers.len() > 40 && hi >= 6 && hi + 4 <= b.wire.headers.len() {
                     continue;
                 }
                 if ln == "x-amz-date" || ln == "date" {
@@ -505,7 +522,7 @@ pub fn c01(o: &mut O, tier: &str, rng: &mut Rng) {
             }
             for (n, idxs) in by_name.iter() {
                 let ln = String::from_utf8_lossy(n).to_string();
-                if idxs.len() >= 2 && plan.signed.contains(&ln) {
+                if idxs.len() >= 2 && sent_list.contains(&ln.as_str()) {
                     let mut w = b.wire.clone();
                     let (a, c) = (idxs[0], idxs[1]);
                     if signer::trimall(&w.headers[a].1) != signer::trimall(&w.headers[c].1) {
@@ -572,6 +589,10 @@ pub fn c01(o: &mut O, tier: &str, rng: &mut Rng) {
                         *v = String::from_utf8(v.clone()).unwrap().replace(&os, &ns).into_bytes();
                     }
                 }
+            }
+            if w.uri == b.wire.uri && w.headers == b.wire.headers {
+                // (the timestamp is written in another form than the compact one: nothing was replaced)
+                continue;
             }
             let mut c = b.cfg.clone();
             c.now_secs += d;
